@@ -26,6 +26,8 @@ type c07Cfg struct {
 	InitWin uint32 `json:"init_window"`
 	Sizes   []int  `json:"sizes"`
 	Kind    []int  `json:"kind"` // 0 buffered, 1 streamed declared, 2 streamed unknown
+	// Frame > 0: the server's first SETTINGS already carries this MAX_FRAME_SIZE (uploads start under a large limit)
+	Frame int `json:"init_max_frame,omitempty"`
 }
 
 type c07Case struct {
@@ -118,8 +120,15 @@ func c07Spec(i, size, kind int) harness.ReqSpec {
 }
 
 func newC07(cfg c07Cfg) (*c07Run, *fw.Violation) {
-	h := harness.NewClient(harness.ClientOpts{ServerSettings: []peer.Setting{{ID: peer.SInitialWindowSize, Val: cfg.InitWin}}})
+	ss := []peer.Setting{{ID: peer.SInitialWindowSize, Val: cfg.InitWin}}
+	if cfg.Frame > 0 {
+		ss = append(ss, peer.Setting{ID: peer.SMaxFrameSize, Val: uint32(cfg.Frame)})
+	}
+	h := harness.NewClient(harness.ClientOpts{ServerSettings: ss})
 	x := &c07Run{h: h, cfg: cfg, l: newLedger(cfg.InitWin), maxFrame: 16384}
+	if cfg.Frame > 0 {
+		x.maxFrame = cfg.Frame
+	}
 	// prelude upload: uses the connection window down to 5
 	pre := h.Go(harness.ReqSpec{Tag: "prelude", Method: "POST", Path: "/prelude", Body: []byte(valOfLen(65530))})
 	if len(h.Conns) != 1 {
@@ -195,7 +204,10 @@ func (x *c07Run) menu() []string {
 			m = append(m, fmt.Sprintf("settings %d", v))
 		}
 	}
-	for _, v := range []int{16384, 20000} {
+	for _, v := range []int{16384, 20000, 65536} {
+		if v == 65536 && x.cfg.Frame == 0 {
+			continue
+		}
 		if v != x.maxFrame {
 			m = append(m, fmt.Sprintf("maxframe %d", v))
 		}
@@ -323,14 +335,16 @@ func runC07(c *fw.Ctx) {
 	runSpxFamily(c, "C07")
 	thorough := c.Tier == "thorough"
 	cfgs := []c07Cfg{
-		{0, []int{3}, []int{0}}, {1, []int{6}, []int{1}}, {5, []int{6, 3}, []int{0, 2}}, {1, []int{3, 1}, []int{2, 0}},
-		{5, []int{16385}, []int{0}}, {0, []int{0, 3}, []int{2, 1}}, {70000, []int{6, 6}, []int{0, 0}},
-		{5, nil, nil}, {70000, nil, nil}, // nothing in flight at first: SETTINGS and grants arrive on an idle connection, uploads start later
+		{0, []int{3}, []int{0}, 0}, {1, []int{6}, []int{1}, 0}, {5, []int{6, 3}, []int{0, 2}, 0}, {1, []int{3, 1}, []int{2, 0}, 0},
+		{5, []int{16385}, []int{0}, 0}, {0, []int{0, 3}, []int{2, 1}, 0}, {70000, []int{6, 6}, []int{0, 0}, 0},
+		{5, nil, nil, 0}, {70000, nil, nil, 0}, // nothing in flight at first: SETTINGS and grants arrive on an idle connection, uploads start later
 	}
+	// uploads that start while the server allows 64 KiB frames; the limit is lowered (and raised) while they wait for credit
+	cfgs = append(cfgs, c07Cfg{5, []int{40000}, []int{0}, 65536}, c07Cfg{5, []int{40000, 20000}, []int{1, 2}, 65536})
 	depth := 3
 	if thorough {
 		depth = 4
-		cfgs = append(cfgs, c07Cfg{1, []int{40000, 6}, []int{1, 0}}, c07Cfg{5, []int{16384, 1}, []int{0, 2}}, c07Cfg{0, []int{1, 3, 6}, []int{0, 1, 2}}, c07Cfg{70000, []int{6, 6, 6}, []int{0, 1, 2}})
+		cfgs = append(cfgs, c07Cfg{1, []int{40000, 6}, []int{1, 0}, 0}, c07Cfg{5, []int{16384, 1}, []int{0, 2}, 0}, c07Cfg{0, []int{1, 3, 6}, []int{0, 1, 2}, 0}, c07Cfg{70000, []int{6, 6, 6}, []int{0, 1, 2}, 0})
 	}
 	c.Bound["depth"] = depth
 	c.Bound["configs"] = len(cfgs)
